@@ -92,9 +92,13 @@ class W3Codec(base.Codec):
     # Postings
 
     def postings_writer(self, dbfile, byteids=False):
+        # Vector postings (byteids=True) are found through their offset in the
+        # vector file, so they must never be inlined into a (discarded)
+        # terminfo object
+        inlinelimit = 0 if byteids else self._inlinelimit
         return W3PostingsWriter(dbfile, blocklimit=self._blocklimit,
                                 byteids=byteids, compression=self._compression,
-                                inlinelimit=self._inlinelimit)
+                                inlinelimit=inlinelimit)
 
     def postings_reader(self, dbfile, terminfo, format_, term=None, scorer=None):
         if terminfo.is_inlined():
